@@ -622,7 +622,10 @@ func (c *Ctx) newRef(s *State, hint string) Term {
 	s.clock++
 	r := c.freshConst(hint, SInt)
 	c.d.Fun("birth", []Sort{SInt}, SInt)
-	s.assume(Term{fmt.Sprintf("(and (= (birth %s) %d) (not (= %s 0)))", r.S, s.clock, r.S), SBool})
+	c.d.Fun("privateObj", []Sort{SInt}, SBool)
+	// a freshly allocated object is private to the activation that allocated it (until it is shared,
+	// which is not tracked: private(x) means "allocated here, or vouched for by the caller")
+	s.assume(Term{fmt.Sprintf("(and (= (birth %s) %d) (not (= %s 0)) (privateObj %s))", r.S, s.clock, r.S, r.S), SBool})
 	if c.written != nil {
 		c.localRefs = append(c.localRefs, r.S)
 	}
